@@ -610,9 +610,9 @@ pub fn run_c19(ctx: &mut Ctx) -> (String, Value, Vec<String>) {
     let nt = AtomicU64::new(0);
     let bad = Mutex::new(Vec::<(String, String, Value)>::new());
     let pairs: Vec<((ArrSpec, u64), (ArrSpec, u64))> = per.iter().flat_map(|a| per.iter().map(move |b| (a.clone(), b.clone()))).collect();
-    pairs.par_iter().for_each(|(a, b)| {
-        for limit in [LIMIT, 9] {
-            for bb in [0u64, 1, 3] {
+    let body = |a: &(ArrSpec, u64), b: &(ArrSpec, u64), limits: &[u64], bbs: &[u64], dls: &[u64]| {
+        for limit in limits.iter().copied() {
+            for bb in bbs.iter().copied() {
                 let mk = |ana: Ana, last: u64, bb: u64| UniCase { ana, tasks: vec![tsa(&a.0, a.1, 0, 1, 1), tsa(&b.0, b.1, 0, last, 1)], tua: 1, blocking: bb, limit };
                 if bb == 0 {
                     eq_pair(&bad, "fp-lp(last=1,no-blocking)==fp-p#results-differ", &mk(Ana::FpLp, 1, 0), &mk(Ana::FpP, 1, 0), &n, &nt);
@@ -620,19 +620,19 @@ pub fn run_c19(ctx: &mut Ctx) -> (String, Value, Vec<String>) {
                 eq_pair(&bad, "fp-lp(last=wcet)==fp-np#results-differ", &mk(Ana::FpLp, b.1, bb), &mk(Ana::FpNp, 1, bb), &n, &nt);
                 eq_pair(&bad, "fp-fl==fp-lp(last=1)#results-differ", &mk(Ana::FpFl, 1, bb), &mk(Ana::FpLp, 1, bb), &n, &nt);
             }
-            for d0 in &dls {
-                for d1 in &dls {
+            for d0 in dls {
+                for d1 in dls {
                     let mk = |ana: Ana, last: u64, np0: u64| UniCase { ana, tasks: vec![tsa(&a.0, a.1, *d0, 1, np0), tsa(&b.0, b.1, *d1, last, 1)], tua: 1, blocking: 0, limit };
                     eq_pair(&bad, "edf-lp(segments=1)==edf-p#results-differ", &mk(Ana::EdfLp, 1, 1), &mk(Ana::EdfP, 1, 1), &n, &nt);
                     eq_pair(&bad, "edf-fl(segments=1)==edf-p#results-differ", &mk(Ana::EdfFl, 1, 1), &mk(Ana::EdfP, 1, 1), &n, &nt);
                     eq_pair(&bad, "edf-lp(segments=wcet)==edf-np#results-differ", &mk(Ana::EdfLp, b.1, a.1), &mk(Ana::EdfNp, 1, a.1), &n, &nt);
-                    for np0 in 1..=a.1 {
+                    for np0 in if a.1 <= 8 { (1..=a.1).collect::<Vec<u64>>() } else { vec![1, a.1 / 2, a.1] } {
                         eq_pair(&bad, "edf-fl==edf-lp(last=1)#results-differ", &mk(Ana::EdfFl, 1, np0), &mk(Ana::EdfLp, 1, np0), &n, &nt);
                     }
                 }
             }
             // equal relative deadlines: max over tasks of NP-EDF == FIFO
-            for dl in &dls {
+            for dl in dls {
                 let tasks = vec![tsa(&a.0, a.1, *dl, 1, a.1), tsa(&b.0, b.1, *dl, 1, b.1)];
                 let fifo = catch(|| run_uni(&UniCase { ana: Ana::Fifo, tasks: tasks.clone(), tua: 0, blocking: 0, limit }));
                 let e: Vec<_> = (0..2).map(|i| catch(|| run_uni(&UniCase { ana: Ana::EdfNp, tasks: tasks.clone(), tua: i, blocking: 0, limit }))).collect();
@@ -665,7 +665,22 @@ pub fn run_c19(ctx: &mut Ctx) -> (String, Value, Vec<String>) {
                 }
             }
         }
-    });
+    };
+    pairs.par_iter().for_each(|(a, b)| body(a, b, &[LIMIT, 9], &[0, 1, 3], &dls));
+    // systems that are not tiny: a busy window of more than 10^5 ticks (one very long job), and
+    // the family hp = (C 2g, T 3g), tua = (C g-1, T 3g-2) whose busy window holds more than
+    // 65 536 jobs of the analysed task, each a tick worse than the one before
+    let sp = |t: u64, j: u64, c: u64| (ArrSpec::Sporadic { t, j }, c);
+    let mut huge: Vec<((ArrSpec, u64), (ArrSpec, u64), Vec<u64>)> = vec![
+        (sp(1_000_000, 0, 100_001), sp(1_000_000, 0, 1), vec![0, 7]),
+        (sp(1_000_000, 0, 1), sp(1_000_000, 0, 100_005), vec![0, 7]),
+        (sp(300_000, 0, 70_000), sp(250_000, 0, 40_000), vec![0, 90_000]),
+        (sp(250_000, 400_000, 60_000), sp(900_000, 0, 30_000), vec![0, 3]),
+    ];
+    for g in if quick { vec![65_538u64] } else { vec![65_538u64, 66_001, 131_075] } {
+        huge.push((sp(3 * g, 0, 2 * g), sp(3 * g - 2, 0, g - 1), vec![0, g]));
+    }
+    huge.par_iter().for_each(|(a, b, bbs)| body(a, b, &[1u64 << 44], bbs, &[5, 2_000_000, 1u64 << 40]));
     // every ROS 2 analysis: dedicated == periodic(q=p) == constrained(q=d=p)
     let rb: Vec<RosCase> = ros_bases(quick).into_iter().filter(|c| matches!(c, RosCase::EventSource { supply: SupplySpec::Dedicated, .. } | RosCase::Timer { supply: SupplySpec::Dedicated, .. } | RosCase::Pp { supply: SupplySpec::Dedicated, .. } | RosCase::Chain { supply: SupplySpec::Dedicated, .. } | RosCase::ChainSummed { supply: SupplySpec::Dedicated, .. } | RosCase::Sub { supply: SupplySpec::Dedicated, .. })).collect();
     rb.par_iter().for_each(|c| {
@@ -712,7 +727,7 @@ pub fn run_c19(ctx: &mut Ctx) -> (String, Value, Vec<String>) {
     let cov = json!({
         "evaluations": n.load(Ordering::Relaxed),
         "distinct_nontrivial": nt.load(Ordering::Relaxed),
-        "rule": format!("every pair of the statement on every two-task system over (plus periodic and auto-extrapolating curves) T in {:?}, J in {:?}, C in 1..3 (x deadlines {:?}, blocking 0/1/3, limits 60 and 9), and every ROS 2 base case on dedicated vs full-budget reservations with P in {{1,2,5}}; non-trivial = both sides Ok with a bound > 2", tl, jl, dls),
+        "rule": format!("every pair of the statement on every two-task system over (plus periodic and auto-extrapolating curves) T in {:?}, J in {:?}, C in 1..3 (x deadlines {:?}, blocking 0/1/3, limits 60 and 9), the same pairs on a handful of systems with busy windows beyond 10^5 ticks and beyond 65 536 jobs of the analysed task, and every ROS 2 base case on dedicated vs full-budget reservations with P in {{1,2,5}}; non-trivial = both sides Ok with a bound > 2", tl, jl, dls),
         "samples": samples,
         "exhaustive": true,
     });
